@@ -242,6 +242,8 @@ def gen_cases(tier, seed):
     r.shuffle(items)
     B = 60
     cs = [{'items': items[i:i + B], 'k': i // B} for i in range(0, len(items), B)]
+    for c_ in cs[3::6]:
+        c_['poison'] = True
     if cs:
         cs[0]['skipped_ambiguous_or_fieldless'] = st_skipped
     return cs
@@ -254,12 +256,36 @@ def run_case(case):
     shapes = []
     items = case['items']
     lines = []
-    for f, vals, trail in items:
-        fq = f.replace('"', '')
-        args = '; '.join(lit_of(t, v) for t, v in vals)
-        lines.append(f'PRINT USING "{fq}"; {args}{trail}')
+    poison = bool(case.get('poison'))
+    if poison:
+        # every statement is preceded by one with the same format whose last value has the wrong kind for its field (a device
+        # error, skipped by the handler): what that statement had already laid out must not show up in the next one
+        st['poisoned_predecessors'] = 0
+        lines.append('ON ERROR GOTO zh')
+        items2 = []
+        for f, vals, trail in items:
+            if vals:
+                bad = list(vals[:-1]) + [('%', 7) if vals[-1][0] == '$' else ('$', 'oops')]
+                fq = f.replace('"', '')
+                lines.append(f'PRINT USING "{fq}"; ' + '; '.join(lit_of(t, v) for t, v in bad))
+                items2.append(None)
+                st['poisoned_predecessors'] += 1
+            fq = f.replace('"', '')
+            lines.append(f'PRINT USING "{fq}"; ' + '; '.join(lit_of(t, v) for t, v in vals) + trail)
+            items2.append((f, vals, trail))
+        items = items2
+        lines0 = lines[1:]
+        lines = lines + ['END', 'zh: RESUME NEXT']
+    else:
+        for f, vals, trail in items:
+            fq = f.replace('"', '')
+            args = '; '.join(lit_of(t, v) for t, v in vals)
+            lines.append(f'PRINT USING "{fq}"; {args}{trail}')
+        lines0 = lines
     text = '\n'.join(lines) + '\n'
     cfg = rt.CONFIGS6[case['k'] % 6]
+    if poison:
+        cfg = (cfg[0], True)
     c = rt.compile_src(text, cfg[0], cfg[1])
     if c.status != 'ok':
         bad = None
@@ -283,13 +309,19 @@ def run_case(case):
     crashed_at = None
     if run.outcome[0] != 'halt' and run.outcome[0] != 'end_of_code':
         crashed_at = len(groups) - 1
-    for k, (f, vals, trail) in enumerate(items):
+    for k, it_ in enumerate(items):
         if k >= len(groups):
             break
         if crashed_at is not None and k == crashed_at:
             viol.append(V(f'C19:run:{run.outcome[1] if len(run.outcome) > 1 else run.outcome[0]}',
-                          f'{lines[k]!r}: {run.outcome} {run.stdout[-150:]!r}', text=lines[k]))
+                          f'{lines0[k]!r}: {run.outcome} {run.stdout[-150:]!r}', text=lines0[k]))
             break
+        if it_ is None:
+            if groups[k] not in ('',):
+                # the failing statement itself: the property says nothing about it
+                pass
+            continue
+        f, vals, trail = it_
         st['formats_checked'] += 1
         shapes.append(f'{f}|{vals}')
         parts = parse_format(f)
@@ -335,7 +367,8 @@ def run_case(case):
             failed = ('newline', [nl], len(body))
         if failed is not None:
             kind, cands, pos = failed
-            viol.append(V(f'C19:{kind}', f'{lines[k]!r} [{rt.cfg_name(cfg)}]: printed {got!r}; at column {pos} the reference '
-                          f'expects one of {cands!r}', text=lines[k]))
-    sample = {'statement': lines[0], 'printed': groups[0] if groups else None}
+            viol.append(V(f'C19:{kind}' + (':after-failed-statement' if poison else ''),
+                          f'{lines0[k]!r} [{rt.cfg_name(cfg)}]: printed {got!r}; at column {pos} the reference '
+                          f'expects one of {cands!r}', text=lines0[k]))
+    sample = {'statement': lines0[-1], 'printed': groups[-1] if groups else None}
     return {'viol': viol[:80], 'stats': st, 'shape': shapes, 'nontrivial': bool(shapes), 'sample': sample}
